@@ -1,9 +1,11 @@
 """C06 (protocol-level): see DESIGN.md section 6/C06 and 12."""
+import k2check
 import k3check
 
 
 def run(tier):
-    return k3check.run("C06", tier, programs=k3check.SECTION_PROGRAMS | {"find-vs-rehash", "two-resizers"})
+    return k3check.run("C06", tier, programs=k3check.SECTION_PROGRAMS | {"find-vs-rehash", "two-resizers"},
+                       phases=[k2check.locked_phase("C06")])
 
 
 def replay(path):
